@@ -87,6 +87,17 @@ def corpus():
                                              ('return', ('expr', ('bin', '*', v('acc'), v('r'))))], None),
                                            ('return', num(1))]),
                 P(('call', 'fact', [num(4)]))])
+    # return from the inner of two nested loops, the outer one over lights (names still to be
+    # visited are on the evaluation stack), called from a loop over lights and inside an expression
+    out.append([('define', 'pick', ['k'],
+                 [('repeat', ('all', 'M', None),
+                   [('repeat', ('count', num(3)),
+                     [('if', ('expr', ('bin', '>', v('k'), num(0))), [('return', v('k'))], None)])]),
+                  ('return', num(0))]),
+                ('repeat', ('all', 'L', None), [P(('call', 'pick', [num(2)])), P(v('L'))]),
+                ('assign', 'y', ('expr', ('bin', '+', num(100), ('call', 'pick', [num(3)])))), P(v('y')),
+                ('repeat', ('in', [('light', ('str', 'Top')), ('light', ('str', 'Candle'))], 'L', None),
+                 [('call', 'pick', [num(1)], False), P(v('L'))])])
     return [(prog, pop) for prog in out]
 
 
